@@ -70,3 +70,27 @@ Proof.
   rewrite zip_fine by (apply (map_length_eq s_t); assumption).
   rewrite zip_coarse by assumption. split; reflexivity.
 Qed.
+
+(* wave 8b (audit5b B10): the statement above uses NOTHING of the driver model - it is this lemma, true for ARBITRARY lists t, jf, wf, jc, wc
+   (unsorted times, rows of any length: steps_of truncates to the shortest), read at the driver's output *)
+Theorem sde_on_paths_rows a_st a b mu_h mu_2h x0 t jf wf jc wc :
+  (forall t zf zc, smat_f (a_st t zf zc) = a t zf /\ smat_c (a_st t zf zc) = a t zc) ->
+  let r := ceuler_st a_st b mu_h mu_2h (zip_csteps (steps_of t [jf] [wf]) (steps_of t [jc] [wc])) x0 x0 in
+  map fst r = euler a b mu_h (steps_of t [jf] [wf]) x0
+  /\ map snd r = euler a b mu_2h (steps_of t [jc] [wc]) x0.
+Proof.
+  intro Hst. cbv zeta.
+  rewrite (stacked_rows a_st a b mu_h mu_2h Hst).
+  destruct (coupled_rows a b mu_h mu_2h (zip_csteps (steps_of t [jf] [wf]) (steps_of t [jc] [wc])) x0 x0) as [Hf Hc].
+  rewrite Hf, Hc.
+  destruct (steps_of_times t [jf] [wf] [jc] [wc]) as [Ht Hd].
+  rewrite zip_fine by (apply (map_length_eq s_t); assumption).
+  rewrite zip_coarse by assumption. split; reflexivity.
+Qed.
+
+(* what the DRIVER model contributes (cap = None, the uncapped simulator): the time grid handed to the scheme is 0, the jump times of the
+   script, the maturity - so the scheme's first step starts at 0 and the grid has one point per scripted jump plus two *)
+Lemma driver_paths_uncapped fuel T tms offs fi ci sq sf sc ws :
+  let '(t, _, _) := driver_paths None fuel T tms offs fi ci sq sf sc ws in
+  t = Paths.assemble_times T (Paths.jump_times_of tms offs).
+Proof. unfold driver_paths, Paths.coupled_jump_path. reflexivity. Qed.
